@@ -5,7 +5,6 @@ NOT_APPLICABLE = {
            'beyond those claimed under C01/C06.',
     'C20': 'Line spans are arithmetic over runtime text offsets; the only structural proxy would be a frozen '
            'fragment of source.py (brittle text match).',
-    'C34': 'Call-signature rewrites: caller/callee agreement is whole-program and value-level.',
     'C37': 'SCC pipelines: behavioural equivalence of long transformation chains; not a code-shape fact.',
     'C38': 'Storage sufficiency of stack/pool allocation is arithmetic over runtime sizes.',
     'C40': 'Idempotence is equality of the outputs of two runs; not decidable from code shape.',
